@@ -497,6 +497,11 @@ def judge (ev : Ev) : List String :=
       | none => [s!"skip {hd} {ev.op} unparsable-or-unknown"]
     else [s!"skip {hd} {ev.op} no-post-state"]
   | some realX =>
+    -- an object outside the invariant (left behind by an earlier, reported event) is not replayed: the theorems do not
+    -- speak about it, and conversions of garbage rows may take for ever
+    if !((match ev.preX with | some g => invB g | none => true) && (match ev.preY with | some g => invB g | none => true)) then
+      [s!"skip {hd} {ev.op} pre-state-outside-invariant"]
+    else
     match (runModel ev).run ev.args with
     | none => [s!"skip {hd} {ev.op} unparsable-or-unknown"]
     | some (mr, _) =>
@@ -578,7 +583,14 @@ def judge (ev : Ev) : List String :=
             (o1 ++ o2.1 ++ o3, o2.2)
         | _, _ => ([], ["pre-undenotable"])
       let out := out ++ semOut.1
-      let tags := [s!"pre={preTag}", s!"post={flagTag realX}"] ++ (if realThrown then ["exc"] else []) ++ semOut.2 ++
+      -- instances of the duality hypotheses `DkCompatG` / `DkCompatC` (one description minimized, the other one simplified
+      -- by this call, `dim_kinds` overwritten): their conclusion is part of `invB` of the post-state, checked above
+      let dkTag : List String := match ev.preX with
+        | some g => if !g.st.empty && g.spaceDim != 0 && g.st.cUp && g.st.gUp && (g.st.cMin != g.st.gMin) &&
+                      realX.st.cMin && realX.st.gMin && realX.spaceDim == g.spaceDim then
+                      [if g.st.cMin then "dkcompatG-instance-checked" else "dkcompatC-instance-checked"] else []
+        | none => []
+      let tags := [s!"pre={preTag}", s!"post={flagTag realX}"] ++ (if realThrown then ["exc"] else []) ++ semOut.2 ++ dkTag ++
         (if stateDiff mr.x realX == none && staleDiff mr.x realX then ["stale-differs"] else [])
       if out.isEmpty then [s!"ok {hd} {ev.op} {" ".intercalate tags}"]
       else out ++ [s!"info {hd} {ev.op} {" ".intercalate tags}"]
